@@ -43,7 +43,7 @@ TIERS = {
     "thorough": {"runs": 900000, "budget_s": 900},
 }
 
-NAMES = ["a", "b", "c", "x y", "p.q", "A!1", ".def_0", ".def_1"]
+NAMES = ["a", "b", "c", "x y", "p.q", "A!1", ".def_0", ".def_1", "1) d", "e(f", 'g"h']
 ONESHOT = ("is_sat", "is_valid", "is_unsat")
 
 
@@ -62,6 +62,11 @@ def gen_plan(tape, cfg):
         if tape.chance(1, 2, "usort2"):
             symbols["w0"] = ["S", "VW"]
             symbols["w1"] = ["S", "VW"]
+        if tape.chance(1, 2, "usort.fun"):
+            # a function whose RESULT sort is a declared sort (the sort may occur nowhere else)
+            symbols["gu"] = ["Fun", [bp.BV(1)], ["S", "U"]]
+            if not any(bp.is_bv(s_) and s_[1] == 1 for s_ in symbols.values()):
+                symbols["o1"] = bp.BV(1)
         if tape.chance(1, 2, "usort.arrays"):
             # arrays whose element sort is a declared sort (the sort may occur nowhere else in a formula)
             symbols["ar0"] = bp.ARRAY(bp.BV(1), ["S", "U"])
@@ -112,8 +117,9 @@ def gen_plan(tape, cfg):
             return t
         if t[0] == "app":
             nm = "%s#%d" % (t[1], e)
-            symbols[nm] = ["Fun", t[2], t[3]]
-            return ["app", nm, t[2], t[3]] + [ren(x, e) for x in t[4:]]
+            res = ["S", "%s_%d" % (t[3][1], e)] if bp.is_usort(t[3]) else t[3]
+            symbols[nm] = ["Fun", t[2], res]
+            return ["app", nm, t[2], res] + [ren(x, e) for x in t[4:]]
         base = 1 + bp.PARAM_OPS.get(t[0], 0)
         return t[:base] + [ren(x, e) for x in t[base:]]
 
@@ -126,7 +132,7 @@ def gen_plan(tape, cfg):
         if k == "assert" or k in ONESHOT:
             o["f"] = bp.gen_term(tape, bp.BOOL, 2, ctx)
         elif k in ("push", "pop"):
-            o["n"] = tape.weighted([(5, 1), (3, 2), (1, 3)], "levels")
+            o["n"] = tape.weighted([(5, 1), (3, 2), (1, 3), (1, 0)], "levels")
         elif k == "get_value":
             srt = tape.choice([s_ for s_ in symbols.values() if not bp.is_usort(s_) and not bp.is_fun(s_)
                                and not bp.is_array(s_)] or [bp.BOOL], "gv.sort")
@@ -398,7 +404,7 @@ def execute(plan, tape):
                     probe("multi_level_push")
             elif k == "pop":
                 nlev = min(o["n"], st.model.depth)
-                if nlev == 0:
+                if nlev == 0 and o["n"] != 0:
                     return
                 if st.pending:
                     probe("pending_pop_then_pop")
